@@ -11,6 +11,47 @@ from . import sched as S
 from . import net as N
 
 
+CURRENT = {"sched": None, "t0": 0.0, "hits": 0}
+BUSY_AFTER_S = 8.0       # a run normally takes 5-100 ms of wall time; two looks 8 s apart without any scheduler progress
+_monitor = None
+
+
+def start_monitor():
+    """one real daemon thread per process: breaks busy loops of the code under test (no yield point for BUSY_AFTER_S
+    wall seconds) by raising BusyLoop asynchronously in the thread that holds the baton"""
+    global _monitor
+    import os
+    if _monitor is not None and _monitor[1] == os.getpid():
+        return      # (threads do not survive fork: one monitor per process)
+    import ctypes
+    import threading
+    import time
+
+    def watch():
+        while True:
+            time.sleep(1.0)
+            sc = CURRENT["sched"]
+            if sc is None or sc.killing:
+                continue
+            now = time.time()
+            if now - CURRENT["t0"] < BUSY_AFTER_S:
+                continue
+            if CURRENT.get("steps") != sc.steps or CURRENT.get("lines") != sc.line_hits:
+                # the scheduler made progress since the last look: not a busy loop (just a long run)
+                CURRENT["steps"], CURRENT["lines"], CURRENT["t0"] = sc.steps, sc.line_hits, now
+                continue
+            cur = sc.cur
+            if cur is None or cur.real is None or CURRENT["hits"] >= 2:
+                continue
+            CURRENT["hits"] += 1
+            CURRENT["t0"] = now
+            ctypes.pythonapi.PyThreadState_SetAsyncExc(ctypes.c_ulong(cur.real.ident), ctypes.py_object(S.BusyLoop))
+
+    th = threading.Thread(target=watch, name="busy-loop-monitor", daemon=True)
+    S._real_start(th)
+    _monitor = (th, os.getpid())
+
+
 def derive_seed(*parts):
     h = hashlib.sha256(("/".join(str(p) for p in parts)).encode()).digest()
     return int.from_bytes(h[:8], "big")
@@ -101,9 +142,18 @@ class World:
         gc_was = gc.isenabled()
         gc.disable()
         seams.install(sched, net, uuid_seed=plan.get("seed", 0) ^ 0xABCDEF, line_codes=self.line_codes(plan))
+        import time as _t
+        CURRENT.update(sched=sched, t0=_t.time(), hits=0, steps=-1, lines=-1)
         try:
             try:
                 self.scenario(ctx)
+            except S.BusyLoop as e:
+                fr = S._pyro_frame(e)
+                if fr is None:
+                    harness = "busy loop outside Pyro5 code (harness bug?)"
+                else:
+                    ctx.violate("busy-loop", fr, "the code under test ran for %.0f wall seconds without reaching a yield point (spinning in %s)"
+                                % (BUSY_AFTER_S, fr))
             except S.StepCap as e:
                 harness = "step-cap: %s" % e
             except S.Deadlock as e:
@@ -115,6 +165,14 @@ class World:
             except Exception:
                 harness = "scenario-exception: " + traceback.format_exc()[-1500:]
         finally:
+            CURRENT["sched"] = None
+            for t in sched.deaths:
+                if t.died and t.died[0] == "BusyLoop" and not any(v["kind"] == "busy-loop" for v in ctx.violations):
+                    if t.died[2] is None:
+                        harness = harness or "busy loop outside Pyro5 code in thread %s" % t.name
+                    else:
+                        ctx.violations.append({"kind": "busy-loop", "key": t.died[2], "msg": "thread %s of the code under test ran for %.0f "
+                                               "wall seconds without reaching a yield point (spinning in %s)" % (t.name, BUSY_AFTER_S, t.died[2])})
             leaked = sched.kill_all()
             seams.uninstall()
             if gc_was:
